@@ -377,8 +377,6 @@ theorem good_sorted (orig : List Nat) (hs : orig.Pairwise (· ≤ ·)) (k : Nat)
     obtain ⟨n, hn, rfl⟩ := hx
     exact getD'_mem orig n 0 (hr n hn)
 
-end Comb
-
 /-- **The `Combinations` iterator, all inputs.** Whenever `Combinations::new(original, k)` does
 not panic, the collected outputs are strictly increasing in the lexicographic order (hence pairwise
 distinct), and each output is a selection of `k` entries of the sorted input at strictly increasing
@@ -418,4 +416,5 @@ theorem combinations_spec (original : List Nat) (k : Nat) (outs : List (List Nat
       obtain ⟨h1, h2, h3⟩ := Comb.good_sorted _ (Comb.sortNat_sorted original) k v hg
       exact ⟨hg, h1, h2, fun x hx => (Comb.sortNat_perm original).mem_iff.1 (h3 x hx)⟩
 
+end Comb
 end PCV
